@@ -74,6 +74,7 @@ fn main() {
                 "slice" => slice::gen(seed, n),
                 "lang-toks" => rgen::gen_toks(seed, n, maxlen),
                 "lang-text" => rgen::gen_texts(seed, n, maxlen),
+                "eval" => rgen::gen_eval(seed, n, maxlen),
                 _ => die("unknown generator"),
             };
             for r in recs {
